@@ -104,7 +104,7 @@ Proof.
                       /\ nl_rep l = [] /\ nl_lead l = []).
   { induction rg as [|x rg IH]; intros s l Hl; simpl in Hl; [destruct Hl|].
     destruct Hl as [<-|Hl].
-    - exists 0. simpl. rewrite Nat.add_0_r. repeat split; lia.
+    - exists 0. simpl. rewrite Nat.add_0_r, wrap_v2_id. repeat split; lia.
     - replace (N.of_nat s + 1)%N with (N.of_nat (S s)) in Hl by lia.
       destruct (IH (S s) l Hl) as [k [Hk [E1 [E2 [E3 E4]]]]]. exists (S k). simpl.
       replace (s + S k) with (S s + k) by lia. repeat split; try assumption; lia. }
